@@ -143,6 +143,43 @@ M("C14", "truncated-not-mapped", CMD, "        except IndexError as e:\n        
 M("C14", "caps-match-by-id-only", DEV, "if response.id == response_id and isinstance(response, response_class):", "if response.id == response_id:")
 M("C14", "unknown-id-raises", CMD, "            # Default to base class\n            response_class = Response\n", "            # Default to base class\n            response_class = Response\n            if frame_mv[10] < 0xA0:\n                raise ValueError(\"unknown response\")\n")
 
+# ---- C15
+M("C15", "unknown-id-advance-4", CMD, "                # Advanced to next capability\n                caps = caps[3+size:]\n                continue", "                # Advanced to next capability\n                caps = caps[4+size:]\n                continue")
+M("C15", "empty-advance-with-size", CMD, "            if size == 0:\n                caps = caps[3:]\n                continue", "            if size == 0:\n                caps = caps[4:]\n                continue")
+M("C15", "merge-replaces", CMD, "        self._capabilities.update(other._capabilities)", "        self._capabilities = dict(other._capabilities)")
+M("C15", "additional-from-last-byte", CMD, "self._additional_capabilities = bool(caps[-2])", "self._additional_capabilities = bool(caps[-1])")
+M("C15", "second-page-not-merged", DEV, "                response.merge(additional_response)\n", "                pass\n")
+M("C15", "update-before-merge", DEV, "        # Send 2nd capabilities request if needed\n        if response.additional_capabilities:", "        # Send 2nd capabilities request if needed\n        self._update_capabilities(response)\n        _upd, self._update_capabilities = self._update_capabilities, (lambda r: None)\n        if response.additional_capabilities:")
+M("C15", "short-temps-not-consumed", CMD, "                if size < 6:\n                    caps = caps[3+size:]\n                    continue", "                if size < 6:\n                    continue")
+M("C15", "merge-keeps-first", CMD, "        self._capabilities.update(other._capabilities)", "        self._capabilities = {**other._capabilities, **self._capabilities}")
+M("C15", "temps-fixed-advance", CMD, "                self._capabilities[\"decimals\"] = (\n                    caps[9] if size > 6 else caps[2]) != 0\n", "                self._capabilities[\"decimals\"] = (\n                    caps[9] if size > 6 else caps[2]) != 0\n                caps = caps[10:]\n                continue\n")
+
+# ---- C06
+M("C06", "sha-check-inverted", LAN, "        if sha256(decrypted_payload).digest() != rx_hash:\n            raise AuthenticationError(", "        if sha256(decrypted_payload).digest() == rx_hash:\n            raise AuthenticationError(")
+M("C06", "no-sha-check", LAN, "        if sha256(decrypted_payload).digest() != rx_hash:\n            raise AuthenticationError(", "        if False:\n            raise AuthenticationError(")
+M("C06", "sha-prefix-only", LAN, "        if sha256(decrypted_payload).digest() != rx_hash:\n            raise AuthenticationError(", "        if sha256(decrypted_payload).digest()[:8] != rx_hash[:8]:\n            raise AuthenticationError(")
+M("C06", "store-creds-before-success", LAN, "        # A V3 protocol should exist at this point\n        assert isinstance(self._protocol, _LanProtocolV3)\n", "        # A V3 protocol should exist at this point\n        assert isinstance(self._protocol, _LanProtocolV3)\n        self._token = token\n        self._key = key\n")
+M("C06", "errors-as-protocol-error", BASE, "            raise AuthenticationError(e) from e", "            raise ProtocolError(e) from e")
+M("C06", "timeout-not-mapped", BASE, "        except (ProtocolError, TimeoutError) as e:\n            raise AuthenticationError(e) from e", "        except ProtocolError as e:\n            raise AuthenticationError(e) from e")
+M("C06", "length-check-ge-and-slice", LAN, "        if len(data) != 64:\n            raise AuthenticationError(\n                \"Invalid data length for key handshake.\")\n\n        # Extract payload and hash\n        payload = data[:32]\n        rx_hash = data[32:]", "        if len(data) < 64:\n            raise AuthenticationError(\n                \"Invalid data length for key handshake.\")\n\n        # Extract payload and hash\n        payload = data[:32]\n        rx_hash = data[32:64]")
+M("C06", "key-set-before-verify", LAN, "        decrypted_payload = Security.decrypt_aes_cbc(key, payload)\n\n        if sha256(decrypted_payload).digest() != rx_hash:", "        decrypted_payload = Security.decrypt_aes_cbc(key, payload)\n        self._local_key = strxor(decrypted_payload, key)\n        self._local_key_expiration = datetime.now(timezone.utc) + self.AUTHENTICATION_EXPIRATION\n\n        if sha256(decrypted_payload).digest() != rx_hash:")
+M("C06", "xor-with-hash", LAN, "        return strxor(decrypted_payload, key)", "        return strxor(decrypted_payload, bytes(rx_hash))")
+M("C06", "hex-key-not-converted", LAN, "            key = convert(key)", "            key = key if isinstance(key, bytes) else bytes.fromhex(key[:64].ljust(64, \"0\"))[::1] if False else convert(key) if not isinstance(key, str) or len(key) != 64 or key[0] != key[1] else bytes.fromhex(key[::-1])")
+M("C06", "preauth-assert-regression", LAN, "        if self._local_key is None:\n            raise ProtocolError(\n                \"Encrypted response received before authentication.\")", "        assert self._local_key is not None")
+M("C06", "unknown-type-accepted-as-handshake", LAN, "        elif packet_type == self.PacketType.HANDSHAKE_RESPONSE:", "        elif packet_type in (self.PacketType.HANDSHAKE_RESPONSE, 0x5):")
+
+# ---- C09
+M("C09", "guard-to-assert", LAN, "        if packet[4] != 0x20:\n            raise ProtocolError(\n                f\"Invalid magic byte: 0x{packet[4]:X}\")", "        assert packet[4] == 0x20")
+M("C09", "short-guard-removed", LAN, "            if len(packet) < 6:\n                raise ProtocolError(f\"Packet is too short: {packet.hex()}\")\n", "            length_check = packet[5]\n")
+M("C08", "oserror-not-mapped", LAN, "        except OSError as e:\n            raise ProtocolError(\"Connect failed.\") from e", "        except ConnectionAbortedError as e:\n            raise ProtocolError(\"Connect failed.\") from e")
+M("C09", "unguarded-int-parse", LAN, "            length = int.from_bytes(packet[4:6], \"little\")\n", "            length = int.from_bytes(packet[4:6], \"little\")\n            _ = packet[length - 1] if length else 0\n")
+M("C09", "queue-empty-not-caught", LAN, "        except asyncio.QueueEmpty:\n            pass\n\n    async def send", "        except asyncio.QueueFull:\n            pass\n\n    async def send")
+M("C09", "valueerror-not-mapped", LAN, "            except ValueError as e:\n                # Payload is not a whole number of blocks or is incorrectly padded\n                raise ProtocolError(\n                    f\"Failed to decrypt packet payload: {e}\") from e", "            except ValueError as e:\n                raise")
+M("C09", "error-packet-as-runtimeerror", LAN, "            raise ProtocolError(\"Error packet received.\")", "            raise RuntimeError(\"Error packet received.\")")
+M("C09", "unexpected-type-keyerror", LAN, "            raise ProtocolError(f\"Unexpected type: {packet_type}\")", "            raise ProtocolError(f\"Unexpected type: {self.PacketType(packet_type)}\")")
+M("C09", "device-catches-protocol-only", BASE, "        except TimeoutError as e:\n            _LOGGER.warning(\"Network timeout %s:%d: %s\", self.ip, self.port, e)", "        except asyncio.TimeoutError as e:\n            _LOGGER.warning(\"Network timeout %s:%d: %s\", self.ip, self.port, e)")
+M("C09", "handshake-len-unchecked", LAN, "        if len(data) != 64:\n            raise AuthenticationError(\n                \"Invalid data length for key handshake.\")\n", "")
+
 
 def apply_mutant(src_root: str, file: str, old: str, new: str) -> None:
     p = os.path.join(src_root, file)
